@@ -71,6 +71,9 @@ class C03(Prop):
             pick = maps if (n == 1 or thorough) else rng.sample(maps, 2500)
             for i, m in enumerate(pick):
                 yield {"k": "tf", "kind": "list", "m": m, "ins": allp, "pkg": "py"}
+                if i % 50 == 0:
+                    yield {"k": "tf", "kind": "list", "m": m, "ins": [], "n": n}
+                    yield {"k": "tf", "kind": "list", "m": m, "ins": [allp[(i * 13 + 5) % len(allp)]]}
                 if i % 7 == 0:
                     # operands / maps in other memory layouts (views, column-major arrays, results of inverse())
                     yield {"k": "tf", "kind": ("list", "poly")[(i // 7) % 2], "m": m, "ins": allp,
@@ -197,10 +200,10 @@ class C03(Prop):
                 M = be.relayout(M, mlay)
             if lay or mlay:
                 rec["layout"] = [lay or "", mlay or ""]
-            n = len(ins[0]) - 1
+            n = scn["n"] if "n" in scn else len(ins[0]) - 1
             mk = mask_of(be, qs, n) if qs else None
             if kind == "list":
-                L = be.plist(ins)
+                L = be.plist(ins, n)
                 if lay:
                     L = be.relayout(L, lay)
                 L.transform_by(M, mk) if qs else L.transform_by(M)
